@@ -107,7 +107,13 @@ inductive Action where
   | step (tid : Nat) (k : Nat)
   | reopen
   | recreate      -- TorrentArchive.DeleteTorrent followed by CreateTorrent (only while no call is in flight)
+  | tornReopen (n : Nat)   -- the process crashed, the `_status` sidecar was left with n bytes, restart
   deriving Repr, DecidableEq
+
+/-- actions after which pieces that were complete need not be complete any more -/
+def Action.destructive : Action → Bool
+  | .recreate | .tornReopen _ => true
+  | _ => false
 
 /-- pwrite: bytes `d` at offset `off` (a write past the end zero-fills the gap, as POSIX does) -/
 def writeAt (f : Bytes) (off : Nat) (d : Bytes) : Bytes :=
@@ -225,6 +231,13 @@ def step (crc : Bytes → Nat) (s : State) : Action → State
   | .step tid k => stepThread crc s tid k
   | .reopen => if quiescent s then openTorrent s else s
   | .recreate => if quiescent s then init s.mi else s   -- file, sidecars and the old calls' records are gone
+  | .tornReopen n =>
+    -- a crash left `_status` with n bytes (a prefix of what was there, or zero padded); the restarted
+    -- process opens the torrent again (its calls died with it). Only for a file still in the download state.
+    if quiescent s ∧ s.inCache = false then
+      if n = s.status.length then openTorrent s
+      else openTorrent { s with status := s.status.take n ++ List.replicate (n - s.status.length) 0, threads := [] }
+    else s
 
 def run (crc : Bytes → Nat) (mi : MetaInfo) (sched : List Action) : State :=
   sched.foldl (step crc) (init mi)
